@@ -48,7 +48,7 @@ def plan(tier, seed):
             iters = int(pick([1, 2, 3, 5, 8])) if kind != 'cbmm' else int(pick([1, 2, 3]))
             cases.append(dict(lane='trace', kind=kind, cls=pick(['gauss', 'gauss', 'dup', 'ragged']), K=K, N=N, D=D, lead=lead, layout=pick(['c', 'c', 'f', 'tview']),
                               offset=float(pick([0, 0, 1e4, 1e6])) if kind in ('gmm', 'gcacgmm') else 0.0,
-                              init=pick(['dirichlet:1', 'dirichlet:0.3', 'blur:0.3', 'onehot']), iters=iters, opts=o, rs=[seed, 9, i]))
+                              init=pick(['dirichlet:1', 'dirichlet:0.3', 'blur:0.3', 'onehot', 'onehot:bool', 'onehot:int']), iters=iters, opts=o, rs=[seed, 9, i]))
             i += 1
     p = S(tier, 10, 100)
     for kind in list(models.KINDS) + ['T:gauss', 'T:diag', 'T:spher', 'T:ccsg', 'T:vmf', 'T:watson', 'T:bingham']:
